@@ -242,6 +242,9 @@ def run(ctx):
            "building with `--features \"doc serde\"` has cfg(feature = \"fpdec\") on: %s" % sorted(a_feats), "Cargo.toml")
     if ctx.tier == "thorough":
         k2 = additivity(ctx, "dec-none", "dec-all")
+        # std vs no_std: the same bodies
+        additivity(ctx, "f64-nostd", "f64-all")
+        additivity(ctx, "dec-nostd", "dec-noserde")
         for f in QF:
             additivity(ctx, "single-" + f, "f64-all")
             exposes(ctx, f)
